@@ -57,8 +57,14 @@ LINES = [
     b'REJECTED', b'ERROR', b'ERROR "text"', b'DATA', b'DATA ' + CHALLENGE,
     b'DATA zz', b'AGREE_UNIX_FD', b'BEGIN', b'FOO', b'',
     b'DATA ' + CHALLENGE_STALE, b'DATA ' + CHALLENGE_NOCTX,
+    # several hexadecimal tokens / a hexadecimal token and more: not "OK
+    # followed by a GUID"
+    b'OK 01 23', b'OK ' + fakes.GUID[:16] + b'\t' + fakes.GUID[16:],
+    b'OK ' + fakes.GUID + b' ' + fakes.GUID,
 ]
-OUTSIDE = {b'BEGIN', b'FOO', b'', b'OK', b'OK zz'}
+OUTSIDE = {b'BEGIN', b'FOO', b'', b'OK', b'OK zz', b'OK 01 23',
+           b'OK ' + fakes.GUID[:16] + b'\t' + fakes.GUID[16:],
+           b'OK ' + fakes.GUID + b' ' + fakes.GUID}
 
 
 def _det_urandom(n):
@@ -151,7 +157,8 @@ def digest_step(obs, server_line, written, closed_now, auth_calls, tag):
     negotiating = obs.negotiate_sent and not obs.negotiate_answered
     if server_line is not None:
         cmd = server_line.split(b' ')[0]
-        if cmd == b'OK' and len(server_line.split()) == 2:
+        if cmd == b'OK' and len(server_line.split()) == 2 and \
+                server_line.count(b' ') == 1 and b'\t' not in server_line:
             try:
                 binascii.unhexlify(server_line.split()[1])
                 obs.valid_ok = True
@@ -280,6 +287,8 @@ class ClientScenario(explore.Scenario):
                          (line.split(b' ')[0] or b'empty').decode())
         if line in (b'OK zz', b'DATA zz'):
             tag += '-badhex'
+        elif line.startswith(b'OK ') and len(line.split()) > 2:
+            tag += '-several-tokens'
         elif line.endswith(CHALLENGE_STALE):
             tag += '-stale-cookie-id'
         elif line.endswith(CHALLENGE_NOCTX):
